@@ -126,7 +126,7 @@ Proof.
       intros [= <-] H. apply in_app_or in H. destruct H as [H|H].
       * apply firstn_incl in H. apply get_n_best_cand_in in H. rewrite <- Hk. exact H.
       * apply (IH _ _ _ _ Er) in H. apply filter_keys_incl in H. exact H.
-    + intros Hr H. apply (IH _ _ _ _ Hr) in H. rewrite map_map in H. exact H.
+    + intros Hr H. apply (IH _ _ _ _ Hr) in H. rewrite map_map in H. apply filter_keys_incl in H. exact H.
 Qed.
 
 (* ---- shape of the get_n_best answer *)
@@ -370,21 +370,30 @@ Proof.
     rewrite <- (counts_over_compat d' _ _ Hmv), <- (counts_over_compat d _ _ Hmv). exact Hne.
 Qed.
 
-(* ---- the default tie-break, one seat: rounds of median removal *)
+(* ---- the default tie-break, one seat: rounds of median removal among the candidates still level *)
+Definition mj_level (sub : list (C * cscores)) (tied : list C) : list (C * cscores) :=
+  filter (fun cd : C * cscores => cmem (fst cd) tied) sub.
+
+Definition mj_ch (sub : list (C * cscores)) (medians : list (C * Q)) : Z :=
+  let ch0 := closest_change sub medians in if (ch0 =? 0)%Z then 1%Z else ch0.
+
 Definition mj_remove (sub : list (C * cscores)) (medians : list (C * Q)) (ch : Z) : list (C * cscores) :=
   map (fun cd : C * cscores =>
          let m := dget_or medians (fst cd) 0%Q in
          (fst cd, cs_set (snd cd) m (match cs_get (snd cd) m with Some k => k | None => 0%Z end - ch)%Z)) sub.
 
-(* [mj_rounds sub sub']: sub' is reached from sub by rounds, each removing ch >= 1 copies of every candidate's
-   current median grade; before each round the highest median is shared (no unique leader) *)
+(* one round: the highest median is shared by the candidates T (no unique leader); everybody else leaves the contest,
+   and mj_ch >= 1 copies of the current median grade are removed from each of T *)
+Definition mj_round (sub : list (C * cscores)) (medians : list (C * Q)) (T : list C) : list (C * cscores) :=
+  mj_remove (mj_level sub T) medians (mj_ch (mj_level sub T) medians).
+
+(* [mj_rounds sub sub']: sub' is one of the states the removal rounds go through, starting from sub *)
 Inductive mj_rounds : list (C * cscores) -> list (C * cscores) -> Prop :=
 | mjr_done sub : mj_rounds sub sub
-| mjr_step sub medians T ch sub' :
+| mjr_step sub medians T sub' :
     aggregate FMedianLow sub = inl medians ->
     get_n_best Qle_bool medians 1 = [TieR T] ->
-    (1 <= ch)%Z ->
-    mj_rounds (mj_remove sub medians ch) sub' ->
+    mj_rounds (mj_round sub medians T) sub' ->
     mj_rounds sub sub'.
 
 Lemma fold_min_lower (l : list Z) : forall x b, (b <= x)%Z -> Forall (fun y => (b <= y)%Z) l -> (b <= fold_left Z.min l x)%Z.
@@ -409,6 +418,43 @@ Proof.
     cbv zeta. apply Z.min_glb; apply Qceiling_abs_nonneg.
 Qed.
 
+(* every round removes at least one copy *)
+Lemma mj_ch_pos sub medians : (1 <= mj_ch sub medians)%Z.
+Proof.
+  unfold mj_ch. pose proof (closest_change_nonneg sub medians). cbv zeta.
+  destruct (closest_change sub medians =? 0)%Z eqn:Ez; lia.
+Qed.
+
+Lemma mj_round_keys sub medians T : map fst (mj_round sub medians T) = map fst (mj_level sub T).
+Proof. unfold mj_round, mj_remove. rewrite map_map. reflexivity. Qed.
+
+(* who stays in the contest after a round: exactly the candidates on the shared highest median *)
+Lemma mj_round_level sub medians T c :
+  aggregate FMedianLow sub = inl medians -> get_n_best Qle_bool medians 1 = [TieR T] ->
+  In c (map fst (mj_round sub medians T)) ->
+  In c (map fst sub) /\ exists v, In (c, v) medians /\ forall c' v', In (c', v') medians -> v' <= v.
+Proof.
+  intros Ea Eb Hc. rewrite mj_round_keys in Hc. unfold mj_level in Hc.
+  apply in_map_iff in Hc. destruct Hc as ([c0 d0] & Hc0 & Hin). simpl in Hc0. subst c0.
+  apply filter_In in Hin. destruct Hin as [Hin Hmem]. simpl in Hmem. apply cmem_In in Hmem.
+  split; [apply in_map_iff; exists (c, d0); auto|].
+  destruct (get_n_best_1_shape medians) as [E|[[c0 E]|(level & below & thr & E & Hp & _ & Hl & Hb)]]; rewrite E in Eb; try discriminate.
+  injection Eb as <-. apply in_map_iff in Hmem. destruct Hmem as ([c1 v] & Hc1 & Hlv). simpl in Hc1. subst c1.
+  exists v. split; [eapply Permutation_in; [exact Hp|apply in_or_app; left; exact Hlv]|].
+  intros c' v' Hin'. apply (Permutation_in _ (Permutation_sym Hp)) in Hin'. apply in_app_or in Hin'.
+  pose proof (Hl _ Hlv) as Hv. simpl in Hv. destruct Hin' as [H|H].
+  - apply Hl in H. simpl in H. lra.
+  - apply Hb in H. simpl in H. lra.
+Qed.
+
+Lemma mj_default_step f sub medians T :
+  (fold_left Z.max (map (fun cd : C * cscores => cs_total (snd cd)) sub) 0%Z <=? 0)%Z = false ->
+  aggregate FMedianLow sub = inl medians -> get_n_best Qle_bool medians 1 = [TieR T] ->
+  mj_default (S f) sub 1 = mj_default f (mj_round sub medians T) 1.
+Proof.
+  intros Hmx Ea Eb. cbn [mj_default]. cbv zeta. rewrite Hmx, Ea, Eb. reflexivity.
+Qed.
+
 Theorem mj_default_rule : forall fuel sub c,
   NoDup (map fst sub) ->
   mj_default fuel sub 1 = inl [Cand c] ->
@@ -416,25 +462,59 @@ Theorem mj_default_rule : forall fuel sub c,
     mj_rounds sub sub' /\ aggregate FMedianLow sub' = inl medians' /\
     In (c, v) medians' /\ forall c' v', In (c', v') medians' -> c' <> c -> v' < v.
 Proof.
-  induction fuel as [|f IH]; intros sub c Hnd; [discriminate|]. cbn [mj_default]. cbv zeta.
-  destruct (fold_left Z.max (map (fun cd : C * cscores => cs_total (snd cd)) sub) 0%Z <=? 0)%Z; [discriminate|].
-  destruct (aggregate FMedianLow sub) as [medians|e] eqn:Ea; [|discriminate].
+  induction fuel as [|f IH]; intros sub c Hnd; [discriminate|].
+  destruct (fold_left Z.max (map (fun cd : C * cscores => cs_total (snd cd)) sub) 0%Z <=? 0)%Z eqn:Hmx;
+    [cbn [mj_default]; cbv zeta; rewrite Hmx; discriminate|].
+  destruct (aggregate FMedianLow sub) as [medians|e] eqn:Ea; [|cbn [mj_default]; cbv zeta; rewrite Hmx, Ea; discriminate].
   assert (Hndm : NoDup (map fst medians)) by (rewrite (aggregate_keys _ _ _ Ea); exact Hnd).
-  destruct (get_n_best_1_shape medians) as [E|[[c0 E]|(level & below & thr & E & _)]]; rewrite E.
-  - cbn. discriminate.
-  - cbn. intros [= ->]. exists sub, medians.
+  destruct (get_n_best_1_shape medians) as [E|[[c0 E]|(level & below & thr & E & _)]].
+  - cbn [mj_default]. cbv zeta. rewrite Hmx, Ea, E. cbn. discriminate.
+  - cbn [mj_default]. cbv zeta. rewrite Hmx, Ea, E. cbn. intros [= ->]. exists sub, medians.
     destruct (get_n_best_1_cand Qle_bool Qle_bool_total Qle_bool_trans medians c [] Hndm E) as (_ & v & Hin & Hmax).
     exists v. split; [constructor|]. split; [exact Ea|]. split; [exact Hin|].
     intros c' v' Hin' Hne. apply ltb_Qlt. apply (Hmax _ _ Hin' Hne).
-  - cbn [count_tie filter length Nat.eqb Nat.ltb Nat.leb].
-    set (ch := if (closest_change sub medians =? 0)%Z then 1%Z else closest_change sub medians).
-    intros Hr. fold (mj_remove sub medians ch) in Hr.
-    assert (Hch : (1 <= ch)%Z).
-    { unfold ch. pose proof (closest_change_nonneg sub medians). destruct (closest_change sub medians =? 0)%Z eqn:Ez; lia. }
-    assert (Hnd' : NoDup (map fst (mj_remove sub medians ch))) by (unfold mj_remove; rewrite map_map; exact Hnd).
+  - rewrite (mj_default_step f sub medians _ Hmx Ea E). intros Hr.
+    assert (Hnd' : NoDup (map fst (mj_round sub medians (map fst level)))).
+    { rewrite mj_round_keys. apply filter_keys_NoDup_gen. exact Hnd. }
     destruct (IH _ _ Hnd' Hr) as (sub' & medians' & v & Hrounds & Hrest).
     exists sub', medians', v. split; [|exact Hrest].
-    eapply mjr_step; [exact Ea|exact E|exact Hch|exact Hrounds].
+    eapply mjr_step; [exact Ea|exact E|exact Hrounds].
+Qed.
+
+(* the documented rule: in every state the rounds go through - the last one included - the eventual winner is still in
+   the contest and nobody there has a higher median (a candidate that falls behind is out for good, mj_round_level) *)
+Theorem mj_default_documented : forall fuel sub c,
+  NoDup (map fst sub) ->
+  mj_default fuel sub 1 = inl [Cand c] ->
+  forall sub1 medians1, mj_rounds sub sub1 -> aggregate FMedianLow sub1 = inl medians1 ->
+  exists v, In (c, v) medians1 /\ forall c' v', In (c', v') medians1 -> v' <= v.
+Proof.
+  induction fuel as [|f IH]; intros sub c Hnd; [discriminate|].
+  destruct (fold_left Z.max (map (fun cd : C * cscores => cs_total (snd cd)) sub) 0%Z <=? 0)%Z eqn:Hmx;
+    [cbn [mj_default]; cbv zeta; rewrite Hmx; discriminate|].
+  destruct (aggregate FMedianLow sub) as [medians|e] eqn:Ea; [|cbn [mj_default]; cbv zeta; rewrite Hmx, Ea; discriminate].
+  assert (Hndm : NoDup (map fst medians)) by (rewrite (aggregate_keys _ _ _ Ea); exact Hnd).
+  destruct (get_n_best_1_shape medians) as [E|[[c0 E]|(level & below & thr & E & Hshape)]].
+  - cbn [mj_default]. cbv zeta. rewrite Hmx, Ea, E. cbn. discriminate.
+  - cbn [mj_default]. cbv zeta. rewrite Hmx, Ea, E. cbn. intros [= ->] sub1 medians1 Hr Ha1.
+    inversion Hr as [s|s m T s' Ha Hb Hrest]; subst.
+    + rewrite Ea in Ha1. injection Ha1 as <-.
+      destruct (get_n_best_1_cand Qle_bool Qle_bool_total Qle_bool_trans medians c [] Hndm E) as (_ & v & Hin & Hmax).
+      exists v. split; [exact Hin|]. intros c' v' Hin'. destruct (Pos.eq_dec c' c) as [->|Hne].
+      * rewrite (NoDup_keys_val _ _ _ _ Hndm Hin' Hin). lra.
+      * apply (Hmax _ _ Hin') in Hne. apply ltb_Qlt in Hne. lra.
+    + rewrite Ea in Ha. injection Ha as <-. rewrite E in Hb. discriminate.
+  - rewrite (mj_default_step f sub medians _ Hmx Ea E). intros Hres sub1 medians1 Hr Ha1.
+    assert (Hnd' : NoDup (map fst (mj_round sub medians (map fst level)))).
+    { rewrite mj_round_keys. apply filter_keys_NoDup_gen. exact Hnd. }
+    inversion Hr as [s|s m T s' Ha Hb Hrest]; subst.
+    + (* the state itself: the winner survives the round, so it is level with the lead *)
+      rewrite Ea in Ha1. injection Ha1 as <-.
+      assert (Hc : In c (map fst (mj_round sub1 medians (map fst level))))
+        by (apply (mj_default_cands _ _ _ _ _ Hres); left; reflexivity).
+      destruct (mj_round_level _ _ _ _ Ea E Hc) as [_ H]. exact H.
+    + rewrite Ea in Ha. injection Ha as <-. rewrite E in Hb. injection Hb as <-.
+      exact (IH _ _ Hnd' Hres sub1 medians1 Hrest Ha1).
 Qed.
 
 (* the whole evaluator with the default tie-break, one seat *)
@@ -444,7 +524,7 @@ Theorem mj_default_tiebreak cf votes sc med c :
   (exists v, In (c, v) med /\ forall c' v', In (c', v') med -> c' <> c -> v' < v) \/
   (exists tied sub' medians' v,
      get_n_best Qle_bool med 1 = [TieR tied] /\
-     mj_rounds (filter (fun cd : C * cscores => cmem (fst cd) tied) sc) sub' /\
+     mj_rounds (mj_level sc tied) sub' /\
      aggregate FMedianLow sub' = inl medians' /\
      In (c, v) medians' /\ forall c' v', In (c', v') medians' -> c' <> c -> v' < v).
 Proof.
@@ -458,7 +538,7 @@ Proof.
     destruct (get_n_best_1_cand Qle_bool Qle_bool_total Qle_bool_trans med c [] Hnd E) as (_ & v & Hin & Hmax).
     exists v. split; [exact Hin|]. intros c' v' Hin' Hne. apply ltb_Qlt. apply (Hmax _ _ Hin' Hne).
   - right. cbn [last_tie rev app count_tie filter length firstn Nat.sub] in Hr.
-    set (sub := filter (fun cd : C * cscores => cmem (fst cd) (map fst level)) sc) in *.
+    fold (mj_level sc (map fst level)) in Hr. set (sub := mj_level sc (map fst level)) in *.
     match type of Hr with context [mj_default ?f sub 1] => destruct (mj_default f sub 1) as [r'|e] eqn:Er end; [|discriminate].
     cbn in Hr. injection Hr as ->.
     assert (Hnd_sub : NoDup (map fst sub)) by (apply filter_keys_NoDup_gen; exact Hnd_sc).
@@ -466,36 +546,20 @@ Proof.
     exists (map fst level), sub', medians', v. split; [exact E|]. split; [exact H1|]. split; [exact H2|]. split; [exact H3|exact H4].
 Qed.
 
-(* ---- the documented rule ("remove medians until they differ, then the highest new median wins") is not what
-   the loop does for three or more tied candidates: a candidate that fell strictly behind stays in the loop and
-   can overtake.  Five voters, grades 0..2:  A = 0,0,1,2,2   B = 0,1,1,1,1   C = 0,1,1,1,2  (all medians 1).
-   After one removal A has median 0 < 1 = B = C, yet A is elected. *)
-Definition mjw_cf : score_cfg := {| sc_fn := FMedianLow; sc_unscored := UNone; sc_min_count := 0%Z; sc_trunc := 0; sc_bottom := 0 |}.
-Definition mjw_ballot (x y z : Z) : sballot * Z :=
-  ([(1%positive, inject_Z x); (2%positive, inject_Z y); (3%positive, inject_Z z)], 1%Z).
-Definition mjw_votes : sprofile := [mjw_ballot 0 0 0; mjw_ballot 0 1 1; mjw_ballot 1 1 1; mjw_ballot 2 1 1; mjw_ballot 2 1 2].
-Definition mjw_sc : list (C * cscores) :=
-  [(1%positive, [(0, 2%Z); (1, 1%Z); (2, 2%Z)]); (2%positive, [(0, 1%Z); (1, 4%Z)]); (3%positive, [(0, 1%Z); (1, 3%Z); (2, 1%Z)])].
-Definition mjw_med : list (C * Q) := [(1%positive, 1); (2%positive, 1); (3%positive, 1)].
-Definition mjw_sub1 : list (C * cscores) := mj_remove mjw_sc mjw_med 1.
-Definition mjw_med1 : list (C * Q) := [(1%positive, 0); (2%positive, 1); (3%positive, 1)].
-
-Theorem mj_default_documented_refuted :
-  exists cf votes sc med tied c c' sub1 medians1 v v',
-    corrected_scores cf votes = inl sc /\ aggregate FMedianLow sc = inl med /\
-    get_n_best Qle_bool med 1 = [TieR tied] /\
-    majority_judgment false cf votes 1 = inl [Cand c] /\
-    mj_rounds (filter (fun cd : C * cscores => cmem (fst cd) tied) sc) sub1 /\
-    aggregate FMedianLow sub1 = inl medians1 /\
-    In (c, v) medians1 /\ In (c', v') medians1 /\ v < v'.
+Theorem mj_default_tiebreak_documented cf votes sc med tied c sub1 medians1 :
+  corrected_scores cf votes = inl sc -> aggregate FMedianLow sc = inl med ->
+  get_n_best Qle_bool med 1 = [TieR tied] ->
+  majority_judgment false cf votes 1 = inl [Cand c] ->
+  mj_rounds (mj_level sc tied) sub1 -> aggregate FMedianLow sub1 = inl medians1 ->
+  exists v, In (c, v) medians1 /\ forall c' v', In (c', v') medians1 -> v' <= v.
 Proof.
-  exists mjw_cf, mjw_votes, mjw_sc, mjw_med, [1%positive; 2%positive; 3%positive], 1%positive, 2%positive, mjw_sub1, mjw_med1, 0, 1.
-  split; [vm_compute; reflexivity|]. split; [vm_compute; reflexivity|]. split; [vm_compute; reflexivity|].
-  split; [vm_compute; reflexivity|]. split.
-  - apply (mjr_step mjw_sc mjw_med [1%positive; 2%positive; 3%positive] 1%Z mjw_sub1).
-    + vm_compute; reflexivity.
-    + vm_compute; reflexivity.
-    + lia.
-    + apply mjr_done.
-  - split; [vm_compute; reflexivity|]. split; [left; reflexivity|]. split; [right; left; reflexivity|reflexivity].
+  intros Hsc Hmed Et Hr Hrounds Ha1.
+  pose proof (corrected_scores_nodup _ _ _ Hsc) as Hnd_sc.
+  unfold majority_judgment in Hr. rewrite Hsc, Hmed, Et in Hr.
+  cbn [last_tie rev app count_tie filter length firstn Nat.sub] in Hr.
+  fold (mj_level sc tied) in Hr. set (sub := mj_level sc tied) in *.
+  match type of Hr with context [mj_default ?f sub 1] => destruct (mj_default f sub 1) as [r'|e] eqn:Er end; [|discriminate].
+  cbn in Hr. injection Hr as ->.
+  assert (Hnd_sub : NoDup (map fst sub)) by (apply filter_keys_NoDup_gen; exact Hnd_sc).
+  exact (mj_default_documented _ _ _ Hnd_sub Er sub1 medians1 Hrounds Ha1).
 Qed.
